@@ -26,7 +26,7 @@ ANCHORS = [("dateparser.languages.locale", "Locale.translate_search"), ("datepar
            ("dateparser.search.search", "_ExactLanguageSearch.split_if_not_parsed"),
            ("dateparser.search.text_detection", "FullTextLanguageDetector._best_language")]
 FILL = ["The meeting is", "we met", "and then", "xyz", "report", "...", "on", "(see)", "à", "。", "\n", "at", "-", ",", ";",
-        "foo bar", "№ 5", "vs.", "e.g.", "—", "«»", "I"]
+        "foo bar", "№ 5", "vs.", "e.g.", "—", "«»", "I", "[", "]", "(", ")"]
 NUMS = ["12", "2015", "3", "10:45", "1/2/2015", "31.12.99", "٣", "2015-05-12", "12.05.2015", "5", "1999", "23:59:59", "१२", "１２", "0"]
 N_TEXTS = {"quick": 12, "thorough": 300}
 TAPS = {"splits": [], "best": [], "ts": []}
@@ -227,6 +227,11 @@ def run_texts(ctx, desc):
             check_text(ctx, text, [lang], adl, base, parts, joiner)
             if t % 3 == 0 or ctx.tier == "thorough" and t % 2 == 0:
                 check_text(ctx, text, None, adl, base, parts, joiner)
+                # the same text again under other selections (the language reported must follow the selection of *this* call)
+                other = ["en"] if lang != "en" else ["fr"]
+                check_text(ctx, text, other, True, base, parts, joiner)
+                check_text(ctx, text, [lang] + other, True, base, parts, joiner)
+                ctx.count("same_text_other_selection", 2)
             if len(ctx.samples) < 3:
                 ctx.sample({"language": lang, "text": text})
         ctx.count("languages")
@@ -236,7 +241,11 @@ def run_texts(ctx, desc):
         for lang, text in (("th", "เมื่อวานนี้"), ("th", "วันนี้ 12 พฤษภาคม 2015"), ("ko", "어제"), ("zh", "昨天 12:30。明天"),
                            ("ja", "2015年5月12日。昨日"), ("th", "12 พฤษภาคม 2015 เมื่อวาน"), ("lo", "ມື້ວານ"), ("my", "မနေ့က"),
                            ("km", "ម្សិលមិញ"), ("es", "2 año, ..., 2015, Vi, esta hora"), ("en", "."), ("en", ""), ("en", " \n "),
-                           ("ru", "с 12 мая 2015 г. по вчера"), ("fr", "le 12 févr. 2015 puis hier.")):
+                           ("ru", "с 12 мая 2015 г. по вчера"), ("fr", "le 12 févr. 2015 puis hier."),
+                           # texts whose only hits come out of the (known) misaligned split: the list must still be non-empty
+                           ("en", "[ Nov ] today"), ("en", "The report is due [ Nov ] today was the reminder"),
+                           ("pt", "Publicado [ nov ] hoje pela editora"), ("en", "December next year ,"),
+                           ("zh", "中午"), ("en", "( ) yesterday"), ("en", ", today")):
             for adl in (False, True):
                 check_text(ctx, text, [lang], adl, True)
     ctx.count("tripwire:settings-drift-events", len(cons.drift))
